@@ -344,6 +344,139 @@ fn main() {
         });
     }
 
+    // ---------------------------------------------------------------- chains: v op a op b [op c] with literal operands
+    // one instruction per operator, left to right, one rounding each (no reassociation of immediates);
+    // `v + a * b` and `x += a op b` group to the right: v op1 (a op2 b)
+    let f = |x: f64| x.to_bits();
+    let designed: Vec<(u64, &str, u64, &str, u64)> = vec![
+        (f(9007199254740992.0), "add", f(1.0), "add", f(1.0)),
+        (f(-9007199254740992.0), "sub", f(1.0), "sub", f(1.0)),
+        (f(9007199254740992.0), "add", f(1.0), "sub", f(1.0)),
+        (f(9007199254740992.0), "sub", f(-1.0), "sub", f(-1.0)),
+        (f(1.0), "add", f(0.00000000000000006), "add", f(0.00000000000000006)),
+        (f(1.0), "sub", f(0.00000000000000003), "sub", f(0.00000000000000003)),
+        (f(1e308), "add", f(1e308), "add", f(-1e308)),
+        (f(1e308), "add", f(1e308), "sub", f(1e308)),
+        (f(-1e308), "sub", f(1e308), "add", f(1e308)),
+        (f(1e16), "add", f(1.0), "add", f(1.0)),
+        (f(1e16), "add", f(1.0), "sub", f(1e16)),
+        (0x7FEF_FFFF_FFFF_FFFF, "mul", f(2.0), "mul", f(0.5)),
+        (0x7FEF_FFFF_FFFF_FFFF, "mul", f(0.5), "mul", f(2.0)),
+        (0x7FEF_FFFF_FFFF_FFFF, "mul", f(2.0), "div", f(2.0)),
+        (0x7FEF_FFFF_FFFF_FFFF, "div", f(0.5), "div", f(2.0)),
+        (0x7FEF_FFFF_FFFF_FFFF, "div", f(0.5), "mul", f(0.5)),
+        (1, "mul", f(0.5), "mul", f(2.0)),
+        (1, "div", f(2.0), "div", f(0.5)),
+        (1, "div", f(2.0), "mul", f(2.0)),
+        (f(1.0), "div", f(3.0), "div", f(3.0)),
+        (f(1.0), "div", f(3.0), "mul", f(3.0)),
+        (f(0.1), "mul", f(3.0), "mul", f(10.0)),
+        (f(0.1), "add", f(0.2), "add", f(0.3)),
+        (f(0.1), "add", f(0.2), "sub", f(0.3)),
+        (f(1.0), "div", f(0.0), "div", f(1.0)),
+        (f(1.0), "div", f(2.0), "div", SIGN),
+        (f(1.0), "mul", f(0.0), "div", f(0.0)),
+        (f(5.0), "add", f(3.0), "mul", f(2.0)),
+        (f(9007199254740992.0), "add", f(0.5), "mul", f(2.0)),
+        (f(1.0), "sub", f(1e308), "mul", f(10.0)),
+        (f(2.0), "mul", f(3.0), "add", f(0.1)),
+        (f(1.0), "div", f(3.0), "sub", f(0.3333333333333333)),
+    ];
+    let mut chains: Vec<(u64, Vec<(&str, u64)>)> = designed.iter().map(|(v, o1, a, o2, b)| (*v, vec![(*o1, *a), (*o2, *b)])).collect();
+    let finite_set: Vec<u64> = set.iter().cloned().filter(|b| f64::from_bits(*b).is_finite()).collect();
+    let chain_ops = ["add", "sub", "mul", "div"];
+    for _ in 0..(if quick { 260 } else { 8000 }) {
+        let v = if ctx.rng.chance(1, 2) { *ctx.rng.pick(&set) } else { rand_bits(&mut ctx.rng) };
+        let n = 2 + ctx.rng.below(2) as usize;
+        let mut steps = vec![];
+        for _ in 0..n {
+            let a = match ctx.rng.below(3) {
+                0 => *ctx.rng.pick(&finite_set),
+                1 => *ctx.rng.pick(&[f(1.0), f(-1.0), f(2.0), f(0.5), f(3.0), f(0.1), f(1e308), f(1e-300), f(0.00000000000000006), f(4503599627370496.0)]),
+                _ => {
+                    let e = 1023 - 60 + ctx.rng.below(120);
+                    (ctx.rng.below(2) << 63) | (e << 52) | (ctx.rng.next() & ((1 << 52) - 1))
+                }
+            };
+            steps.push((*ctx.rng.pick(&chain_ops), a));
+        }
+        chains.push((v, steps));
+    }
+    let sym = |o: &str| match o { "add" => "+", "sub" => "-", "mul" => "*", _ => "/" };
+    let prec = |o: &str| if o == "add" || o == "sub" { 1 } else { 2 };
+    for (v, steps) in chains {
+        let Some(ov) = opd(v, sp) else { continue };
+        // left-to-right is what the source means only while precedence does not increase along the chain
+        let left_assoc = steps.windows(2).all(|w| prec(w[0].0) >= prec(w[1].0));
+        if left_assoc {
+            // host, step by step
+            let mut cs: Vec<u64> = vec![];
+            let mut cur = v;
+            let mut err = false;
+            for (o, a) in &steps {
+                if *o == "div" && (a & !SIGN) == 0 { err = true; break; }
+                cur = host_arith(o, cur, *a);
+                cs.push(cur);
+            }
+            let spec = if err { "err divzero".to_string() } else { format!("ok {}", render_bits(cur)) };
+            let mut req = format!("f64 chain {}", hex64(v));
+            let mut run = v;
+            for (i, (o, a)) in steps.iter().enumerate() {
+                // after a zero divisor the host values are irrelevant (the model stops there)
+                let c = cs.get(i).cloned().unwrap_or(0);
+                req.push_str(&format!(" {o} {} {}", hex64(*a), hex64(c)));
+                run = c;
+            }
+            let _ = run;
+            let expr_lits: String = steps.iter().map(|(o, a)| format!(" {} {}", sym(o), lit(*a))).collect();
+            let names = ["a", "b", "c"];
+            let expr_vars: String = steps.iter().enumerate().map(|(i, (o, _))| format!(" {} {}", sym(o), names[i])).collect();
+            let lets: String = steps.iter().enumerate().map(|(i, (_, a))| format!("let {} = {}\n", names[i], lit(*a))).collect();
+            for form in ["vlit", "allvar", "assign"] {
+                let src = match form {
+                    "vlit" => format!("{}let v = {}\nlet r = v{expr_lits}\nprintln(r)\nprintln(r < 0.0)\n", prologue(), ov.expr),
+                    "allvar" => format!("{}let v = {}\n{lets}let r = v{expr_vars}\nprintln(r)\nprintln(r < 0.0)\n", prologue(), ov.expr),
+                    _ => format!("{}var r = {}\nr = r{expr_lits}\nprintln(r)\nprintln(r < 0.0)\n", prologue(), ov.expr),
+                };
+                jobs.push(Job {
+                    req: format!("{req} #{form}"),
+                    src,
+                    kind: "chain",
+                    form,
+                    what: format!("{}{expr_lits} (v = {})", ov.expr, hex64(v)),
+                    spec: Some(spec.clone()),
+                });
+            }
+        }
+        // right-grouped: v op1 (a op2 b) — as written with precedence, with parentheses, and as `x op1= a op2 b`
+        let (o1, a) = steps[0];
+        let (o2, b) = steps[1];
+        let zero2 = o2 == "div" && (b & !SIGN) == 0;
+        let t = if zero2 { 0 } else { host_arith(o2, a, b) };
+        let zero1 = o1 == "div" && (t & !SIGN) == 0;
+        let c = if zero2 || zero1 { 0 } else { host_arith(o1, v, t) };
+        let spec = if zero2 || zero1 { "err divzero".to_string() } else { format!("ok {}", render_bits(c)) };
+        let req = format!("f64 chainr {} {o1} {} {o2} {} {} {}", hex64(v), hex64(a), hex64(b), hex64(t), hex64(c));
+        let mut forms: Vec<(&'static str, String)> = vec![
+            ("paren", format!("{}let v = {}\nlet r = v {} ({} {} {})\nprintln(r)\nprintln(r < 0.0)\n", prologue(), ov.expr, sym(o1), lit(a), sym(o2), lit(b))),
+            ("cmpd", format!("{}var r = {}\nr {}= {} {} {}\nprintln(r)\nprintln(r < 0.0)\n", prologue(), ov.expr, sym(o1), lit(a), sym(o2), lit(b))),
+            ("parenvar", format!("{}let v = {}\nlet a = {}\nlet b = {}\nlet r = v {} (a {} b)\nprintln(r)\nprintln(r < 0.0)\n", prologue(), ov.expr, lit(a), lit(b), sym(o1), sym(o2))),
+        ];
+        if prec(o2) > prec(o1) {
+            forms.push(("prec", format!("{}let v = {}\nlet r = v {} {} {} {}\nprintln(r)\nprintln(r < 0.0)\n", prologue(), ov.expr, sym(o1), lit(a), sym(o2), lit(b))));
+        }
+        for (form, src) in forms {
+            jobs.push(Job {
+                req: format!("{req} #{form}"),
+                src,
+                kind: "chainr",
+                form,
+                what: format!("{} {} ({} {} {}) (v = {})", ov.expr, sym(o1), lit(a), sym(o2), lit(b), hex64(v)),
+                spec: Some(spec.clone()),
+            });
+        }
+    }
+
     // ---------------------------------------------------------------- unary minus
     let mut negs: Vec<u64> = set.clone();
     for _ in 0..(if quick { 40 } else { 1500 }) {
